@@ -457,6 +457,7 @@ type Contract struct {
 	Applies  string   // extern that calls its function-valued parameter once: the closure's contract is applied at the call site
 	With     []Clause // facts about the arguments (arg0, arg1, ...) the extern passes to the applied closure
 	Focus    map[string][]string // "focus <label> : <invariant labels>": the loop invariants an obligation with that label needs
+	Calls    *CallsSpec // "calls f(a, b, c) once": the function value f (a parameter or captured variable) is called exactly once on every return path, with these arguments
 	Parfor   string   // parallel-for: this parameter is a worker closure run once per extent (see applyParfor)
 	Worker   []string // worker closure: [index variable, offset parameter, entries parameter]
 	Each     []Clause // per-index postconditions of a worker closure (each also added to Ensures as a quantified clause)
@@ -467,6 +468,12 @@ type Contract struct {
 	SiteHints map[string][]Clause // proved (then assumed) right after the named call site ("callee@n")
 	Flags    map[string]bool // pure, inline, trusted, allocates...
 	Src      string
+}
+
+type CallsSpec struct {
+	Fun  string
+	Args []Clause
+	Src  string
 }
 
 type SpecFunc struct {
@@ -660,6 +667,25 @@ func (db *SpecDB) ParseSpecTextIn(lines []string, srcs []string, pkg string) err
 				cur.Focus = map[string][]string{}
 			}
 			cur.Focus[strings.TrimSpace(parts[0])] = strings.Fields(parts[1])
+		case "calls":
+			// calls f(a, b, c) once
+			if cur == nil {
+				return fmt.Errorf("%s: calls outside a contract", l.src)
+			}
+			t := strings.TrimSpace(strings.TrimSuffix(strings.TrimSpace(rest), "once"))
+			i := strings.Index(t, "(")
+			if i <= 0 || !strings.HasSuffix(t, ")") {
+				return fmt.Errorf("%s: calls f(args) once", l.src)
+			}
+			cs := &CallsSpec{Fun: strings.TrimSpace(t[:i]), Src: l.src}
+			for k, a := range splitTopLevel(t[i+1:len(t)-1], ',') {
+				c, err := mk(a, l.src, fmt.Sprintf("arg%d", k))
+				if err != nil {
+					return err
+				}
+				cs.Args = append(cs.Args, c)
+			}
+			cur.Calls = cs
 		case "parfor":
 			if cur == nil {
 				return fmt.Errorf("%s: parfor outside a contract", l.src)
